@@ -115,6 +115,30 @@ CHECKS = {
                      "exponent patterns; reference-free, the oracle is the inequality itself.",
                 note="trusted base: LAPACK eigvalsh; alphabets of DESIGN.md section 4",
                 technique="exhaustive enumeration of configurations with invariants checked on every state"),
+    "C09": dict(engine=E2, ref="5/C09",
+                text="Part A: the four assembly base classes are driven with labelled dummy blocks (non-product "
+                     "symmetric, Hermitian, asymmetric, eight-fold symmetric labels, labelled norm_cont) for every basis "
+                     "shape in the bound, every type pattern and every entry point, against an explicit loop model - "
+                     "any misplaced block, swapped segment/component axis or transposed copy changes some label. Part B: "
+                     "breadth-first search over (type pattern lattice, attached transformation, component convention) "
+                     "with the law X(new) = L X(old) L^T checked on every edge for every public quantity.",
+                note="trusted base: reference harmonics (mc/ref/shells.py, self-tested), numpy tensordot; Part A uses the "
+                     "library's own generate_transformation (checked separately by C10)",
+                technique="explicit-state BFS over rewrites with commutation-law oracle + exhaustive shape enumeration on labelled blocks"),
+    "C11": dict(engine=E2, ref="5/C11",
+                text="Breadth-first search over all orderings of 2-5-shell bases (every transposition as a transition, "
+                     "closure = n! states) with the permutation law checked on every edge for every public quantity, "
+                     "plus independent evaluation of both orientations of every ladder shell pair and all eight "
+                     "orientations of shell quartets including the tight/diffuse list.",
+                note="differential oracle between two runs of the implementation; no reference values; numpy",
+                technique="explicit-state BFS over shell orderings with permutation-law oracle"),
+    "C13": dict(engine=E2, ref="5/C13",
+                text="Breadth-first search from generalized shells (l 0..4, K 1..4, M 1..4) over the rewrites split-"
+                     "generalized / permute-primitives (all K!) / split-primitive / scale-column (7 factors over 12 "
+                     "orders of magnitude) to depth 3, laws checked on every edge (so also from rewritten states) for "
+                     "every public quantity; block-level linearity in each coefficient slot.",
+                note="differential oracle between two runs of the implementation; no reference values; numpy",
+                technique="explicit-state BFS over contraction rewrites with invariance-law oracle"),
 }
 
 NOT_YET = {}
